@@ -32,7 +32,7 @@ CHECKS = {
                 "Drive); the archiver / gpg / reader / splitter / uploader pipeline, as a transition system, has no stuck non-terminal "
                 "state and every terminal state has gpg reaped and the reader ended (5449 states, closure proved by reflection). Tied to "
                 "the code by running the real `vsb upload` (hook-enabled build, real gpg and threads) against an emulator of the three "
-                "provider APIs: one reference run, then one fault at a chosen request x {4xx/5xx JSON, 5xx text, a 300 reply without Location, malformed JSON, missing "
+                "provider APIs: one reference run, then one fault at a chosen request x {4xx/5xx JSON, 5xx text, malformed JSON, missing "
                 "Content-Type, reset before/inside the body, server-side corruption, wrong reported checksum}, and gpg dying / failing / "
                 "absent; after each run the cloud namespace (no final-named object unless it decrypts to the local backup; pre-existing "
                 "object untouched; no direct write under a final name), the error report, attempts for the remaining backups, run time "
